@@ -1,0 +1,39 @@
+//go:build verif
+
+package wallet
+
+// Verification-only exports (build tag verif). Read-only wrappers around unexported
+// functions and constants so an external harness can compare them with a formal model.
+
+// IsValidPathVerif exposes isValidPath.
+func IsValidPathVerif(path string) bool { return isValidPath(path) }
+
+// PathRegexVerif returns the source text of the path regular expression.
+func PathRegexVerif() string { return pathRegex.String() }
+
+// KeyStoreFromEntropyVerif exposes keyStoreFromEntropy.
+func KeyStoreFromEntropyVerif(entropy []byte) (*KeyStore, error) { return keyStoreFromEntropy(entropy) }
+
+// ConstsVerif returns the unexported string/int constants of the package:
+// seedModifier, gcmAdditionData, aesMode, argonName, cryptoStoreVersion, maxSearchIndex.
+func ConstsVerif() (string, string, string, string, int, int) {
+	return seedModifier, gcmAdditionData, aesMode, argonName, cryptoStoreVersion, maxSearchIndex
+}
+
+// MasterKeyVerif exposes newMasterKey as (key, chainCode).
+func MasterKeyVerif(seed []byte) ([]byte, []byte, error) {
+	k, err := newMasterKey(seed)
+	if err != nil {
+		return nil, nil, err
+	}
+	return k.Key, k.ChainCode, nil
+}
+
+// DeriveStepVerif exposes key.derive as (key, chainCode).
+func DeriveStepVerif(keyBytes, chainCode []byte, i uint32) ([]byte, []byte, error) {
+	k, err := (&key{Key: keyBytes, ChainCode: chainCode}).derive(i)
+	if err != nil {
+		return nil, nil, err
+	}
+	return k.Key, k.ChainCode, nil
+}
